@@ -86,6 +86,11 @@ func UnifyGenericType(argType Type, paramType ParameterType, genericTypes map[st
 	if isParamStruct && paramStructType.genericType != nil && (!isArgStruct || argStructType.genericType == nil) {
 		return nil
 	} else if isParamStruct && paramStructType.genericType != nil {
+		// an instantiation of a different generic struct may have fewer type parameters
+		if len(argStructType.instantiatedWith) != len(paramStructType.instantiatedWith) {
+			return nil
+		}
+
 		typeParams := make([]Type, 0, len(paramStructType.instantiatedWith))
 		for i, paramTypParam := range paramStructType.instantiatedWith {
 			argTypParam := argStructType.instantiatedWith[i]
